@@ -283,6 +283,60 @@ theorem diff_sound (R : RInterp ν) (O : DOps ν) (hO : OpsSound R O) (x : Strin
         rw [ev_add, ev_expd, if_neg (fun hh => (ne_of_gt hpos) hh.1), chain_ev R O hO _ _ _ hch,
           chain_ev R O hO _ _ _ hch2]
         simp [F_self, realF1, he]; ring
-  | _ => sorry
+  | ipow n a ih =>
+    intro e' hp h hs
+    simp only [plain] at hp
+    simp only [SideOK] at hs
+    have hF : F R x (.ipow n a) = fun t => F R x a t ^ n := by funext t; simp [F]
+    rw [hF]
+    simp only [diff] at h
+    by_cases hn : n = 1
+    · subst hn
+      simp only [beq_self_eq_true, if_true] at h
+      have := ih e' hp h hs.1
+      simpa using this
+    · have hb : (n == 1) = false := by simpa using hn
+      simp only [hb, Bool.false_eq_true, if_false, except_bind_ok] at h
+      obtain ⟨da, hda, hch⟩ := h
+      have hda' := ih da hp hda hs.1
+      rw [chain_ev R O hO _ _ _ hch]
+      rcases bool_cases (a.dependsOn x) with ha | ha
+      · -- the argument does not depend on x: the derivative of the argument is zero
+        have h0 : ev R da = 0 := hda'.unique (F_const R x a hp ha)
+        have h2 : F R x a = fun _ => ev R a := by funext t; exact (indep R x t a hp ha).1
+        rw [h2, h0, mul_zero]; exact hasDerivAt_const _ _
+      · refine zpow_rule hda' (by rw [F_self]; exact hs.2 ha) ?_
+        simp [F_self, hO.ofInt]
+  | fn1 f c a ih =>
+    intro e' hp h hs
+    simp only [plain] at hp
+    simp only [SideOK] at hs
+    have hF : F R x (.fn1 f c a) = fun t => realF1 c (F R x a t) := by funext t; simp [F]
+    rw [hF]
+    simp only [diff] at h
+    by_cases hr : hasRule c = true
+    swap
+    · simp only [hr, Bool.not_false, Bool.false_eq_true, if_true] at h; simp at h; cases h
+    simp only [hr, Bool.not_true, Bool.false_eq_true, if_false] at h
+    rcases bool_cases (a.dependsOn x) with ha | ha
+    · simp only [ha, Bool.not_false, if_true, except_pure_ok] at h; subst h
+      have h2 : F R x a = fun _ => ev R a := by funext t; exact (indep R x t a hp ha).1
+      rw [h2, ev_nzero R O hO]; exact hasDerivAt_const _ _
+    · simp only [ha, Bool.not_true, Bool.false_eq_true, if_false, except_bind_ok] at h
+      obtain ⟨de, hde, h⟩ := h
+      have hda := ih de hp hde hs.1
+      have hdom := hs.2 ha
+      have hc : c ∈ ["exp", "sin", "cos", "tan", "sqrt", "log", "log10", "asin", "acos", "atan", "sinh", "cosh", "tanh"] := by
+        simpa [hasRule] using hr
+      simp only [List.mem_cons, List.not_mem_nil, or_false] at hc
+      rcases hc with rfl | rfl | rfl | rfl | rfl | rfl | rfl | rfl | rfl | rfl | rfl | rfl | rfl
+      all_goals sorry
+  | fn2 f a b _ _ => intro e' hp h hs; simp [diff] at h
+  | cond c a b ihc iha ihb => sorry
+  | cmp o a b _ _ => intro e' hp h hs; simp [SideOK] at hs
+  | land a b _ _ => intro e' hp h hs; simp [SideOK] at hs
+  | lor a b _ _ => intro e' hp h hs; simp [SideOK] at hs
+  | lnot a _ => intro e' hp h hs; simp [SideOK] at hs
+  | expd a b d _ _ _ => intro e' hp h hs; simp [plain] at hp
 
 end TfelVerif.C14
